@@ -1264,10 +1264,29 @@ theorem tail_fwd {s : Ctl} (hp : Pre s) : Fwd s (loopHead (markReady s)) := by
       · exact hfwd
       · exact hfwd
 
+theorem addDeps_errs (s : Ctl) (l : List (Nat × Nat)) : (l.foldl addDep s).errs = s.errs := by
+  induction l generalizing s with
+  | nil => rfl
+  | cons e l ih => exact (ih (addDep s e)).trans (addDep_ctl s e).2
+
+/-- `initTasks` records an error only for a cycle in the graph it has just built -/
+theorem initTasks_cause (s : Ctl) (g : Growth) (he : s.errs = false)
+    (h : (initTasks s g).errs = true) :
+    checkCycle (initTasks s g).n (initTasks s g).deps = true := by
+  rw [initTasks_eq] at h ⊢
+  split
+  · rename_i hcyc; exact hcyc
+  · rename_i hcyc
+    rw [if_neg hcyc] at h
+    rw [addDeps_errs] at h
+    have : s.errs = true := h
+    rw [he] at this; cases this
+
 theorem complete_ok_pre {s : Ctl} (hinv : Inv s)
     (hs : s.stopped = false) {i : Nat} (hi : i < s.n) (hr : (s.tasks i).state = .running)
     (fill : Bool) (g : Growth) :
-    ∃ s5, onComplete s i true fill g = loopHead (markReady s5) ∧ Pre s5 ∧ Fwd s s5 := by
+    ∃ s5, onComplete s i true fill g = loopHead (markReady s5) ∧ Pre s5 ∧ Fwd s s5 ∧
+      (s5.errs = true → checkCycle s5.n s5.deps = true) := by
   have hc := hinv.core
   obtain ⟨he, hnr, _⟩ := hinv.live hs
   obtain ⟨m1, f1⟩ := mid_term hc hnr hs hi hr true
@@ -1287,10 +1306,14 @@ theorem complete_ok_pre {s : Ctl} (hinv : Inv s)
   · rw [nofill_eq _ _ hsync1]
     simp only [Bool.false_eq_true, if_false]
     obtain ⟨m5, f5, e5, n5, d5⟩ := mid_updateTaskValue m1 i (by rw [t9, hruns]; simp)
-    refine ⟨_, rfl, ⟨m5.core, ?_, m5.noReady, m5.running⟩, f1.trans f5⟩
-    intro _
-    rw [n5, d5, t1, t2]
-    exact hinv.acyclic he
+    refine ⟨_, rfl, ⟨m5.core, ?_, m5.noReady, m5.running⟩, f1.trans f5, ?_⟩
+    · intro _
+      rw [n5, d5, t1, t2]
+      exact hinv.acyclic he
+    · intro h
+      rw [e5] at h
+      have : s.errs = true := h
+      rw [he] at this; cases this
   · rw [fill_eq _ _ hsync1]
     simp only [if_true]
     obtain ⟨m3, f3⟩ := mid_fill m1 (by rw [t1]; exact hi) t6 (by rw [t7]; exact hnf) t8 t3
@@ -1300,23 +1323,27 @@ theorem complete_ok_pre {s : Ctl} (hinv : Inv s)
       have := (f14 i).2.1
       omega
     obtain ⟨m5, f5, e5, n5, d5⟩ := mid_updateTaskValue ⟨p4.core, p4.noReady, p4.running⟩ i hruns4
-    refine ⟨_, rfl, ⟨m5.core, ?_, m5.noReady, m5.running⟩, f14.trans f5⟩
-    intro h
-    rw [n5, d5]
-    apply p4.acyclic
-    rw [← e5]; exact h
+    refine ⟨_, rfl, ⟨m5.core, ?_, m5.noReady, m5.running⟩, f14.trans f5, ?_⟩
+    · intro h
+      rw [n5, d5]
+      apply p4.acyclic
+      rw [← e5]; exact h
+    · intro h
+      rw [e5] at h
+      rw [n5, d5]
+      exact initTasks_cause _ g he h
 
 theorem complete_ok_inv (hcs : CycleSpec) (hbs : BlockedSpec) {s : Ctl} (hinv : Inv s)
     (hs : s.stopped = false) {i : Nat} (hi : i < s.n) (hr : (s.tasks i).state = .running)
     (fill : Bool) (g : Growth) : Inv (onComplete s i true fill g) := by
-  obtain ⟨s5, e, hp, _⟩ := complete_ok_pre hinv hs hi hr fill g
+  obtain ⟨s5, e, hp, _, _⟩ := complete_ok_pre hinv hs hi hr fill g
   rw [e]
   exact (tail_inv hcs hbs hp).1
 
 theorem complete_ok_fwd {s : Ctl} (hinv : Inv s)
     (hs : s.stopped = false) {i : Nat} (hi : i < s.n) (hr : (s.tasks i).state = .running)
     (fill : Bool) (g : Growth) : Fwd s (onComplete s i true fill g) := by
-  obtain ⟨s5, e, hp, hf⟩ := complete_ok_pre hinv hs hi hr fill g
+  obtain ⟨s5, e, hp, hf, _⟩ := complete_ok_pre hinv hs hi hr fill g
   rw [e]
   exact hf.trans (tail_fwd hp)
 
@@ -1376,5 +1403,74 @@ theorem step_forward (s s' : Ctl) (hi : Inv s) (h : Step s s') (t : Nat) :
     s.n ≤ s'.n ∧
     (∀ d, d ∈ (s.tasks t).deps → d ∈ (s'.tasks t).deps) :=
   step_fwd hi h t
+
+/-! ### where errors come from -/
+
+theorem markReady_deps (s : Ctl) : (markReady s).deps = s.deps := by
+  funext t
+  simp only [Ctl.deps]
+  rcases markReady_task s t with h | ⟨_, h⟩
+  · rw [h]
+  · rw [h]
+
+/-- the tail records an error only if there was one before (the deadlock branch is excluded by
+`Inv.no_deadlock`), and changes neither the task set nor the dependencies -/
+theorem tail_cause {s : Ctl} (hp : Pre s) (hinv : Inv (loopHead (markReady s)))
+    (hcause : s.errs = true → checkCycle s.n s.deps = true)
+    (he : (loopHead (markReady s)).errs = true) :
+    checkCycle (loopHead (markReady s)).n (loopHead (markReady s)).deps = true := by
+  revert hinv he
+  unfold loopHead
+  by_cases hes : s.errs = true
+  · have he' : (markReady s).errs = true := hes
+    rw [if_pos he']
+    intro _ _
+    show checkCycle s.n (markReady s).deps = true
+    rw [markReady_deps]
+    exact hcause hes
+  · have hes' : s.errs = false := by simpa using hes
+    have he' : ¬ ((markReady s).errs = true) := hes
+    rw [if_neg he']
+    obtain ⟨c', f, e, hd⟩ := tail_spec s hp.core.value.2.1 hp.noReady
+    simp only
+    rw [show (markReady s).n = s.n from rfl, e]
+    split
+    · intro _ h
+      have : s.errs = true := h
+      rw [hes'] at this; cases this
+    · split
+      · intro hinv _
+        have := hinv.no_deadlock
+        cases this
+      · intro _ h
+        have : s.errs = true := h
+        rw [hes'] at this; cases this
+
+/-- an error is only ever recorded because a task failed or because the dependency graph (as it is in that state) has a cycle -/
+theorem errs_cause (hc : CycleSpec) (hb : BlockedSpec) (g0 : Growth) (s : Ctl) (h : Reachable g0 s)
+    (he : s.errs = true) :
+    (∃ t, t < s.n ∧ (s.tasks t).failed = true) ∨ checkCycle s.n s.deps = true := by
+  have hinv' := reachable_inv hc hb g0 s h
+  cases h with
+  | init =>
+    have hm : Mid ({} : Ctl) := ⟨core_empty, (by intro t ht; cases ht), rfl⟩
+    exact Or.inr (tail_cause (pre_initTasks hm g0).1 hinv' (initTasks_cause {} g0 rfl) he)
+  | @step s0 _ hreach hstep =>
+    have hinv := reachable_inv hc hb g0 s0 hreach
+    cases hstep with
+    | complete i ok fill g hs hi hr =>
+      cases ok
+      · left
+        refine ⟨i, hi, ?_⟩
+        rw [onComplete_fail]
+        simp [termCtl, Ctl.setTask]
+      · right
+        obtain ⟨s5, e, hp, _, hcz⟩ := complete_ok_pre hinv hs hi hr fill g
+        rw [e] at hinv' he ⊢
+        exact tail_cause hp hinv' hcz he
+    | cancel hs =>
+      have := (hinv.live hs).1
+      have he2 : s0.errs = true := he
+      rw [this] at he2; cases he2
 
 end CueVerif.Flow
